@@ -4,4 +4,4 @@ From OlaBase Require Import Bytes.
 From C11 Require Import Gen Model Session.
 Extraction Language OCaml.
 Extraction "model.ml" io_witness N.div_eucl idle0 init step call_of run_pop run_script decode dub_frame
-  line_branch line_mute line_unmute sess0 s_start s_reply s_abort s_destroy pop_answer.
+  line_branch line_mute line_unmute sess0 s_start s_reply s_abort s_destroy s_late pop_answer.
